@@ -899,7 +899,7 @@ func run(r *ev.Run, id string) {
 			New:         func() explore.Sys[Op] { return NewSys(r, id, p, nc, !r.Quick()) },
 			CheckMerges: true,
 			MaxStates:   200000,
-			Deadline:    time.Now().Add(map[bool]time.Duration{true: 10 * time.Minute, false: 20 * time.Minute}[r.Quick()]),
+			Deadline:    time.Now().Add(map[bool]time.Duration{true: 10 * time.Minute, false: 12 * time.Minute}[r.Quick()]),
 		})
 		r.Sample("graph", map[string]interface{}{"pool": p, "clients": nc, "states": res.States, "transitions": res.Transitions, "depth": res.Depth, "fixpoint": res.Fixpoint, "merge_checks": res.MergeChecks})
 	}
